@@ -8,7 +8,6 @@ Open Scope list_scope.
 Open Scope Z_scope.
 
 Definition usize_max : Z := u64_max.
-Definition zlen {A} (l : list A) : Z := Z.of_nat (length l).
 
 (* OpError variants *)
 Inductive errc : Type :=
